@@ -17,7 +17,7 @@ import (
 type Mix struct {
 	InsertNew, Overwrite, DeletePresent, DeleteAbsent, SearchPresent, SearchAbsent int
 	Range, Prefix, TopBottom, Extremes, Scan, Size, Iter                           int
-	BulkInsert, BulkDelete, DeleteAll, GC, Audit                                   int
+	BulkInsert, BulkDelete, DeleteAll, GC, Audit, Move                             int
 }
 
 // PropSpec describes one history-shaped property check.
@@ -430,7 +430,7 @@ func (h *History) step(t *rapid.T) {
 	s := h.eng.slots[ti]
 	m := h.spec.Mix
 	ws := []int{m.InsertNew, m.Overwrite, m.DeletePresent, m.DeleteAbsent, m.SearchPresent, m.SearchAbsent,
-		m.Range, m.Prefix, m.TopBottom, m.Extremes, m.Scan, m.Size, m.Iter, m.BulkInsert, m.BulkDelete, m.DeleteAll, m.GC, m.Audit}
+		m.Range, m.Prefix, m.TopBottom, m.Extremes, m.Scan, m.Size, m.Iter, m.BulkInsert, m.BulkDelete, m.DeleteAll, m.GC, m.Audit, m.Move}
 	if !s.kind.HasRange() && !(h.cfg.CallUndefined && s.kind.Family() == "collation") {
 		ws[6] = 0
 	}
@@ -442,7 +442,7 @@ func (h *History) step(t *rapid.T) {
 	}
 	empty := s.model.Len() == 0
 	if empty {
-		ws[1], ws[2], ws[4], ws[14], ws[15] = 0, 0, 0, 0, 0
+		ws[1], ws[2], ws[4], ws[14], ws[15], ws[18] = 0, 0, 0, 0, 0, 0
 	}
 	switch weighted(t, ws, "action") {
 	case 0:
@@ -516,6 +516,22 @@ func (h *History) step(t *rapid.T) {
 		h.emit(t, Op{T: ti, Op: "gccheck"})
 	case 17:
 		h.emit(t, Op{T: ti, Op: "audit"})
+	case 18:
+		// re-file a stored value under another (stored or fresh) key, then overwrite or delete the source
+		from := clone(h.storedKey(t, ti, "mvfrom"))
+		var to []byte
+		if drawInt(t, 0, 1, "mvfresh") == 0 {
+			to = h.freshKey(t, ti)
+		} else {
+			to = clone(h.storedKey(t, ti, "mvto"))
+		}
+		h.emit(t, Op{T: ti, Op: "move", K: from, K2: to})
+		switch drawInt(t, 0, 2, "mvthen") {
+		case 0:
+			h.emit(t, Op{T: ti, Op: "insert", K: from, V: h.value(), Note: "overwrite-source"})
+		case 1:
+			h.emit(t, Op{T: ti, Op: "delete", K: from, Note: "delete-source"})
+		}
 	}
 }
 
